@@ -14,6 +14,80 @@ STATUS_TEXT = (
     "|| was_destroyed(other) for all 64 pairs; on the 25 pairs of bundle statuses (both modified) the observable meaning is "
     "(exists(other), destroyed(self)||destroyed(other), known(self)||known(other), true)."
 )
+import json as _json, os as _os
+# ---- bounded Kani stand-ins on the real files (kani/kstates); shared by props/C15.py, C16.py, C17.py, C19.py ----
+KSTATES_COST = (
+    "a std HashMap that holds a key is not affordable in CBMC here (measured on this machine, load 30-40: one insert + one get "
+    "of a concrete key with a symbolic value = 1.4 M variables / 5.4 M clauses, 230 s; CacheAccount::change with ONE concrete key "
+    "in each map: symbolic execution not finished after 20 min -- the SIMD group match of hashbrown is not constant-folded, the "
+    "insert index and growth_left become symbolic and every later reserve() walks the rehash code; a symbolic presence of a key, "
+    "or a value-dependent entry.remove() / filter(is_changed), makes the table shape symbolic: not finished after 10 min with no "
+    "key at all). So NO storage content is covered by any harness: the storage arguments are the empty map, and what is checked "
+    "about storage is only that empty stays empty."
+)
+KSTATES_COMMON = (
+    "BOUNDED (Kani 0.68 on the real source files of crates/revm/src/db/states, included by #[path] in kani/kstates; crate revm is "
+    "not compiled): all storage maps EMPTY; AccountInfo = symbolic balance (256 bit), nonce (64 bit), code hash (any 32 bytes or "
+    "KECCAK_EMPTY), code None; whether an account / info exists is CONCRETE per harness instance (a symbolic Some / None of an "
+    "Option<AccountInfo> sends CBMC through the Bytes vtable of every Bytecode variant); one fixed SipHash seed "
+    "(std::hash::RandomState::new stubbed); unwind 34 with unwinding assertions; oracle = the status meaning / step tables of "
+    "contracts/acctstatus.vc written out in kani/kstates/src/common.rs (they do not call the code under test). "
+)
+def _k(harness, bound, quick, timeout=600):
+    d = dict(crate="kstates", harness=harness, bounded=True, bound=KSTATES_COMMON + bound, timeout=timeout, mem_gb=8)
+    if not quick:
+        d["thorough_only"] = True
+    return d
+_B_CHANGE = ("CacheAccount::{f}: status symbolic over the {cls} statuses; checked: returned transition previous_info / previous_status == "
+             "pre-state, info == the new info, status == step table == the account's new status, storage_was_destroyed false, storage "
+             "empty; account_info() afterwards == the new info")
+_B_TOUCH = ("CacheAccount::touch_create_pre_eip161 from the CONCRETE status {s} ({i}); Bytecode::new stubbed by the raw empty bytecode "
+            "(AccountInfo::default() builds an analysed bytecode: > 7 min); checked: None exactly for LoadedEmptyEIP161 / "
+            "DestroyedChanged-with-empty-info and then nothing changed, else previous_* == pre-state, info == the empty account, "
+            "status == step table, reads == post-state")
+K15 = [
+    _k("c15::change_s_00_00", _B_CHANGE.format(f="change", cls="5 existing"), True),
+    _k("c15::change_n_00_00", _B_CHANGE.format(f="change", cls="3 non-existing"), True),
+    _k("c15::newly_created_s_00_00", _B_CHANGE.format(f="newly_created", cls="5 existing"), True),
+    _k("c15::newly_created_n_00_00", _B_CHANGE.format(f="newly_created", cls="3 non-existing"), False),
+] + [_k("c15::touch_create_pre_eip161_" + n, _B_TOUCH.format(s=s, i=i), n == "lne", 300) for (n, s, i) in [
+    ("lne", "LoadedNotExisting", "no info"), ("le", "LoadedEmptyEIP161", "the empty info"),
+    ("imc", "InMemoryChange", "nonce 1, balance / code hash symbolic"), ("imc_empty", "InMemoryChange", "the empty info"),
+    ("d", "Destroyed", "no info"), ("dc", "DestroyedChanged", "nonce 1, balance / code hash symbolic"),
+    ("dc_empty", "DestroyedChanged", "the empty info"), ("da", "DestroyedAgain", "no info")]]
+_B_UPDATE = ("TransitionAccount::update(t2) with t1 = any (possibly merged) transition s0 -> s1 of one legal event class and t2 = the NEXT "
+             "single-event transition s1 -> s2 of the same account (t2.previous_* == t1's post-state), statuses symbolic within the "
+             "existence pattern {p} (exists before t1 / after t1 / after t2), CREATE on a Changed account excluded (collision rule); "
+             "checked: previous_* from t1, info / status from t2, storage_was_destroyed == flag1 || flag2, storage stays empty")
+K16 = [_k("c16::update_%s_00_00" % p, _B_UPDATE.format(p=p), p in ("sss", "sns")) for p in ("sss", "ssn", "sns", "snn", "nss", "nsn", "nns", "nnn")]
+_B_RT = ("BundleAccount::update_and_create_revert(t) then BundleAccount::revert(the returned revert), ONE CONCRETE (bundle status, "
+         "transition status, wipe flag) triple per instance -- all 30 triples reachable by any finite sequence of legal events "
+         "(closure computed by kani/kstates/gen_kstates.py), x info unchanged (one concrete info) / changed (nonce 1 -> 2, rest "
+         "symbolic) x account known / unknown before the bundle; Bytecode::new stubbed (unwrap_or_default); checked: bundle == "
+         "post-state, revert.previous_status / account (RevertTo(info before) | DeleteIt iff absent before | DoNothing iff unchanged), "
+         "wipe_storage true where the group destroys an account whose storage is in the database and false where the group does not "
+         "destroy or the account was destroyed before, slot list empty, after revert status == and info == the pre-state, `removable` "
+         "only for an account absent before the bundle; None only if the info did not change and no database storage was dropped")
+_B_REV = ("BundleAccount::revert alone on a hand-built AccountRevert of CONCRETE kind ({k}), previous_status symbolic over all 8, "
+          "present status symbolic over the 5 existing; checked: status == previous_status, info per kind, return value")
+_inst = _json.load(open(_os.path.join(_os.path.dirname(_os.path.dirname(_os.path.abspath(__file__))), "kani", "kstates", "kstates_instances.json")))
+K17 = ([_k("c17::" + h, _B_RT, True, 400) for h in _inst["quick"]] + [_k("c17::" + h, _B_RT, False, 400) for h in _inst["thorough"]]
+       + [_k("c17::revert_%s_00_00" % n, _B_REV.format(k=k), False, 300) for (n, k) in [
+           ("nothing", "DoNothing"), ("to", "RevertTo(symbolic info)"), ("delete_absent", "DeleteIt, original_info None"),
+           ("delete_existing", "DeleteIt, original_info Some")]])
+_B_FROM = ("CacheAccount::from(BundleAccount) with the info {i}, status symbolic over the {cls} statuses, storage empty; checked: status "
+           "and info preserved, account present iff the info is")
+K19 = [_k("c19::from_bundle_s_00", _B_FROM.format(i="present", cls="5 existing"), True, 300),
+       _k("c19::from_bundle_n_00", _B_FROM.format(i="absent", cls="3 non-existing"), True, 300)]
+KSTATES_TRUST = [
+    "Kani 0.68 / CBMC 6.11 on kani/kstates: the real files of crates/revm/src/db/states are compiled by #[path] inclusion under the "
+    "module paths they name (crate::primitives = revm_interpreter::primitives, crate::db::states::*), against revm-interpreter / "
+    "revm-precompile with default-features = false, features = [std] (HashMap = std::collections::HashMap, as in the default build)",
+    "std::hash::RandomState::new stubbed by one fixed seed: the observable behaviour of std HashMap does not depend on the seed",
+    "revm_primitives::Bytecode::new stubbed by Bytecode::LegacyRaw(empty) in the harnesses that reach AccountInfo::default(): no "
+    "checked read depends on the code field (AccountInfo equality ignores it)",
+]
+
 LEFT_OUT = (
     "LEFT OUT (construct outside Verus; nothing is claimed for them): closures with tuple-pattern parameters and iterator "
     "adapters (.iter().map(|(k, v)| ..).collect(), .filter(), .drain(), .extend(iter), iter_mut().for_each, Vec/HashMap "
@@ -24,7 +98,11 @@ LEFT_OUT = (
     "CacheState::{apply_evm_state, apply_account_state, trie_account}, TransitionState::*, all of bundle_state.rs, state.rs, "
     "state_builder.rs, changes.rs. `for .. in HashMap::into_iter()` was tried with an assumed specification of "
     "<HashMap as IntoIterator>::into_iter: this Verus build does not propagate its postcondition about the returned iterator "
-    "to the caller. Kani cannot stand in: kani-compiler 0.68 crashes (ICE) on the revm crate."
+    "to the caller. Kani: kani-compiler 0.68 crashes (ICE) on crate revm as a whole; the harness crate kani/kstates therefore "
+    "includes the real files account_status.rs, plain_account.rs, cache_account.rs, transition_account.rs, bundle_account.rs, "
+    "reverts.rs, changes.rs by #[path] (no text transformation) without crate revm. That compiles, and gives BOUNDED stand-ins "
+    "(never counted as proved) for change / newly_created / touch_create_pre_eip161 (C15), TransitionAccount::update (C16), "
+    "update_and_create_revert + revert (C17) and From<BundleAccount> (C19) on EMPTY storage maps only: " + KSTATES_COST
 )
 PLUMBING = (
     "TRUSTED PLUMBING (cross-account folds, not verified): CacheState::apply_evm_state / apply_account_state (which event is "
@@ -47,8 +125,9 @@ ACCT_TRUST = COMMON_TRUST + [
 
 PROP = dict(
     level="proof",
-    engine="verus",
+    engine="verus+kani",
     units=["acctstatus", "acctstate"],
+    kani=K15,
     level_text="PER ACCOUNT, unbounded in all values (Verus on verbatim code against the real AccountInfo / U256 / HashMap): "
                + STATUS_TEXT +
                " CACHE ACCOUNT (unit acctstate; structs extracted verbatim): the six constructors establish (account is Some) == "
@@ -62,22 +141,29 @@ PROP = dict(
                "balance and leaves zero. No transition is reported exactly when nothing changed (zero increment; selfdestruct of a "
                "never-existing account; touch of an absent account). CacheState::new / set_state_clear_flag / insert_not_existing / insert_account / "
                "insert_account_with_storage: an empty info enters as LoadedEmptyEIP161 with the default info, any other as "
-               "Loaded; other entries untouched.",
+               "Loaded; other entries untouched. BOUNDED STAND-INS (Kani, kani/kstates, reported under bounded_obligations, never "
+               "counted as proved) for the three mutators Verus cannot take -- CacheAccount::change, newly_created, "
+               "touch_create_pre_eip161 -- on the real files, info / status part only (storage maps empty): the returned transition "
+               "has previous_* == pre-state and info / status == post-state, the status moves as the step table says, account_info() "
+               "afterwards returns the new info.",
     level_note="NOT the whole property. Proved: the per-account steps listed above and the status machine. " + LEFT_OUT + " In "
                "particular the three most frequent mutators CacheAccount::change / newly_created / touch_create_pre_eip161 are "
-               "NOT proved (only their status step is, through on_changed / on_created / on_touched_created_pre_eip161). " + PLUMBING +
+               "NOT proved (their status step is, through on_changed / on_created / on_touched_created_pre_eip161; their info / status "
+               "bookkeeping is checked by the bounded Kani stand-ins on empty storage maps; what they do to STORAGE -- extend the "
+               "account's slots with the present values, replace them on create -- is checked by nothing). " + PLUMBING +
                " The whole-history quantifier ('after any sequence of transactions') is reached only through these per-step "
                "contracts: each contract's post-state is the next one's pre-state, and the status-level closure lemmas "
                "(lemma_reach_closed / lemma_reach_least) are inductions over the step CONTRACTS, not over the code. Equality of "
                "State and CacheDB execution results is not addressed here (CacheDB: unit dbwrap / C20). Exact-domain "
                "preconditions that stand for panics: on_touched_* / touch_empty_eip161 require touch_legal(status) (not Loaded / "
                "Changed); drain_balance requires the balance to fit u128 (`try_into().unwrap()`).",
-    technique="Verus contracts on verbatim-extracted per-account functions; finite status algebra proved completely",
-    trusted=ACCT_TRUST,
+    technique="Verus contracts on verbatim-extracted per-account functions; finite status algebra proved completely; bounded Kani harnesses on the real files for three mutators",
+    trusted=ACCT_TRUST + KSTATES_TRUST,
     assumptions=[
         "cross-account plumbing trusted: apply_evm_state / apply_account_state choose the event from the EVM account flags; "
         "State::load_cache_account / storage / basic are not verified",
-        "CacheAccount::change, newly_created, touch_create_pre_eip161 are outside Verus (iterator adapters with tuple-pattern closures): not proved",
+        "CacheAccount::change, newly_created, touch_create_pre_eip161 are outside Verus (iterator adapters with tuple-pattern closures): not proved; "
+        "bounded Kani stand-ins cover their info / status bookkeeping on empty storage maps only",
         "legal-transition preconditions: touch of an empty account never reaches status Loaded / Changed (an account with nonce, "
         "code or database storage cannot become empty without a destruction)",
         "drain_balance: balance <= u128::MAX (otherwise the code panics in try_into().unwrap())",
